@@ -1,5 +1,6 @@
 import PlaybackProofs.Keys
 import PlaybackProofs.Escape
+import PlaybackProofs.Lex
 /-!
 # C06 — Input lookup keys identify calls by alias and captured argument values only
 
@@ -176,9 +177,10 @@ theorem C06_set_counterexample :
 `C06_injective` is stated on token streams.  The two kinds of token that carry unbounded content - string literals and
 integer literals - are rendered to text injectively (character level): the body of a string literal (json.dumps'
 `ensure_ascii` escaping as transcribed in `escChar`: two-character escapes, `\uXXXX`, surrogate pairs for astral
-characters) can be decoded character by character, and decimal rendering of integers is injective.  What remains in the
-trusted base for the text level is only that token boundaries are recognised (a lexer for punctuation / keywords / where a
-number ends), which is a property of a fixed, finite token alphabet. -/
+characters) can be decoded character by character, and decimal rendering of integers is injective.  Token boundaries are recognised by the lexer
+`lexAll` (`PlaybackModel/Lexer.lean`), which provably recovers the tokens of every rendered stream (`lex_render`); hence the
+text-level theorems below.  What remains in the trusted base at text level: the `repr` text of a finite float is assumed to
+be well formed (`Tok.WF`: sign, digits, a point or an exponent), and bytes are carried as their quoted-printable text. -/
 
 /-- Two different strings never have the same literal text. -/
 theorem C06_string_literal_injective (s s' : String) (h : tokText (.str s) = tokText (.str s')) : s = s' := by
@@ -198,6 +200,30 @@ theorem C06_string_char_decodable (c : Char) (rest : List Char) : dec ((escChar 
 /-- Two different integers never have the same literal text. -/
 theorem C06_int_literal_injective (a b : Int) (h : tokText (.num a) = tokText (.num b)) : a = b :=
   PlaybackModel.CodecNum.int_toString_injective a b h
+
+/-- **Rendered token streams are uniquely decodable** (character level): two well-formed JSON token streams with the same
+text are the same stream. -/
+theorem C06_render_injective (ts ts' : List Tok) (hwf : ∀ t ∈ ts, t.WF) (hwf' : ∀ t ∈ ts', t.WF) (hsep : Sep ts) (hsep' : Sep ts')
+    (h : render ts = render ts') : ts = ts' :=
+  render_injective ts ts' hwf hwf' hsep hsep' h
+
+/-- **Text-level injectivity of the encoded arguments**: two faithful values whose ENCODED TEXTS are equal are equal up to
+dict order - the `args=` (and `kwargs=`) part of a key text determines the captured values. -/
+theorem C06_text_injective (a a' : Val) (ha : a.WF) (ha' : a'.WF) (hf : ∀ t ∈ encToks a, t.WF) (hf' : ∀ t ∈ encToks a', t.WF)
+    (h : encodeText a = encodeText a') : DictEq a a' := by
+  have ht := encodeText_injective a a' hf hf' h
+  have := encToks_inj ht
+  rwa [canon_eq_sortDicts a ha, canon_eq_sortDicts a' ha'] at this
+
+/-- **Text-level round trip of the codec**: `decodeText` (lex the characters, parse, restore) applied to the text of an encoded
+faithful value gives the value back. -/
+theorem C06_codec_text_roundtrip (v : Val) (hw : v.WF) (hc : v.Canonical) (hf : ∀ t ∈ encToks v, t.WF) :
+    decodeText (encodeText v) = some v :=
+  decodeText_encodeText v hw hc hf
+
+/-! Non-vacuity: a value with a float, a negative integer, an escaped string and nesting meets the float-text premise. -/
+example : ∀ t ∈ encToks (.list (.cons (.float "-1.5e+100") (.cons (.int (-7)) (.cons (.str "a\"b") .nil)))), t.WF := by
+  decide
 
 example : tokText (.str (String.ofList ['a', '"', 'b', '\n', Char.ofNat 233, Char.ofNat 128512])) =
     "\"a\\\"b\\n\\u00e9\\ud83d\\ude00\"" := by decide
